@@ -21,6 +21,23 @@ for f in sorted(glob.glob(os.path.join(V, "seeded", "*", "meta.json"))):
 table = "| seeded change | what it does | needs | checks |\n|---|---|---|---|\n" + "\n".join(rows)
 p = os.path.join(V, "DESIGN.md")
 s = open(p).read()
-s = re.sub(r"<!-- SEEDED-TABLE-BEGIN -->.*?<!-- SEEDED-TABLE-END -->", "<!-- SEEDED-TABLE-BEGIN -->\n" + table + "\n<!-- SEEDED-TABLE-END -->", s, flags=re.S)
+_new = "<!-- SEEDED-TABLE-BEGIN -->\n" + table + "\n<!-- SEEDED-TABLE-END -->"
+s = re.sub(r"<!-- SEEDED-TABLE-BEGIN -->.*?<!-- SEEDED-TABLE-END -->", lambda m: _new, s, flags=re.S)
+# ---- behaviour-preserving patches (benign/*/meta.json)
+brows = []
+for f in sorted(glob.glob(os.path.join(V, "benign", "*", "meta.json"))):
+    m = json.load(open(f))
+    bid = m.get("benign_id", os.path.basename(os.path.dirname(f)))
+    ch = m.get("checks", {})
+    if not ch:
+        verdict = "not run yet"
+    else:
+        bad = {k: v for k, v in ch.items() if v.get("verdict") != "ok"}
+        verdict = "all %d checks ok" % len(ch) if not bad else "; ".join("%s: %s — %s" % (k, v.get("verdict"), ((v.get("detail") or [""])[0])[:100].replace("|", "/")) for k, v in sorted(bad.items()))
+    brows.append("| `%s` | %s | %s | %s |" % (bid, ", ".join(os.path.basename(x) for x in m.get("files", []))[:120], m.get("what", "")[:260].replace("|", "/").replace("\n", " "), verdict))
+btable = "| patch | files | what it changes (behaviour-preserving) | the 20 quick checks against it |\n|---|---|---|---|\n" + "\n".join(brows)
+_bnew = "<!-- BENIGN-TABLE-BEGIN -->\n" + btable + "\n<!-- BENIGN-TABLE-END -->"
+if "<!-- BENIGN-TABLE-BEGIN -->" in s:
+    s = re.sub(r"<!-- BENIGN-TABLE-BEGIN -->.*?<!-- BENIGN-TABLE-END -->", lambda m: _bnew, s, flags=re.S)
 open(p, "w").write(s)
-print("%d seeded changes in the table" % len(rows))
+print("%d seeded changes, %d benign patches in the tables" % (len(rows), len(brows)))
